@@ -117,6 +117,8 @@ def _fam():
     add("RDA", C.RDA, "cross", "CapCross", dict(n_modes=3, n_pca_modes=4, use_pca=False), rot=C.CPCCARotator, rot_params=dict(n_modes=2, power=1))
     add("ComplexMCA", C.ComplexMCA, "cross", "CapCross", dict(n_modes=3, n_pca_modes=4), rot=C.ComplexMCARotator,
         rot_params=dict(n_modes=3, power=1), complex_=True)
+    # PCA pre-reduction that keeps everything: the number of retained PCA modes is a function of the data of each fit
+    add("MCAall", C.MCA, "cross", "CapCross", dict(n_modes=3, n_pca_modes="all"), rot=C.MCARotator, rot_params=dict(n_modes=3, power=1))
     add("multiCCA", M.CCA, "multi", "CapMulti", dict(n_modes=2, pca=False))
     add("EOFnc", S.EOF, "single", "CapSingle", dict(n_modes=3, center=False, standardize=True), rot=S.EOFRotator, rot_params=dict(n_modes=2, power=1))
     # the same classes on data with two sample dimensions (stacked sample MultiIndex)
